@@ -47,6 +47,7 @@ pub struct LaneResult {
     pub stopped_by_time_cap: usize,
     pub wall_s: f64,
     pub floor: u64,
+    pub restarts: usize,
 }
 
 pub struct FoundViolation {
@@ -197,6 +198,28 @@ fn run_lane<P: Prop>(
                     let has_summary = shard_has_summary(&sh.out);
                     if status.success() && has_summary {
                         sh.finished = true;
+                        continue;
+                    }
+                    if status.code() == Some(EXIT_RESTART) {
+                        // the worker asked for a fresh process after a case that left stuck
+                        // threads behind (the violation itself is in its log)
+                        let next = read_cur(&sh.out.join("cur")).map(|c| c.0 + 1).unwrap_or(0);
+                        if sh.restarts < 40 {
+                            sh.restarts += 1;
+                            match spawn_shard::<P>(
+                                lane, tier, seed, sh.idx, next, &sh.out, replay_dir, release,
+                            ) {
+                                Ok(c) => {
+                                    sh.child = Some(c);
+                                    sh.last_cur = None;
+                                    sh.cpu_at_change = 0.0;
+                                    running += 1;
+                                }
+                                Err(_) => sh.finished = true,
+                            }
+                        } else {
+                            sh.finished = true;
+                        }
                         continue;
                     }
                     // the worker died in the middle of a case: that is an observation about the
@@ -383,6 +406,7 @@ fn run_lane<P: Prop>(
                     if s.done {
                         lr.shards_done += 1;
                     }
+                    lr.restarts += usize::from(!s.done);
                     if s.stopped_by_time_cap {
                         lr.stopped_by_time_cap += 1;
                     }
